@@ -180,6 +180,67 @@ def runCmd (cfgS cacheS scriptsS : String) (auth : Bool) : String :=
       | _ => "bad-op"
   | _, _, _ => "bad-op"
 
+/-- preorder tree tokens: `N` = node, `L<hex>` = leaf -/
+partial def parseTree : List String → Option (Tools.Tree × List String)
+  | [] => none
+  | tok :: rest =>
+    if tok = "N" then
+      match parseTree rest with
+      | some (l, r1) => match parseTree r1 with
+        | some (r, r2) => some (.node l r, r2)
+        | none => none
+      | none => none
+    else if tok.front = 'L' then (ofHex (tok.drop 1).toString).map fun b => (.leaf b, rest)
+    else none
+
+def leafPaths : Tools.Tree → List (List Bool)
+  | .leaf _ => [[]]
+  | .node l r => (leafPaths l).map (false :: ·) ++ (leafPaths r).map (true :: ·)
+
+def buildCmd (name : String) (args : List String) : String :=
+  let H := Ed.hashes
+  let C := Ed.curve
+  let hb (s : String) : Bytes := (ofHex s).getD []
+  let n (s : String) : Nat := s.toNat?.getD 0
+  let z (s : String) : Int := s.toInt?.getD 0
+  match name, args with
+  | "single_sig_lock", [pk, f] => hx (Tools.singleSigLock (hb pk) (n f))
+  | "single_sig_lock2", [pk, f] => hx (Tools.singleSigLock2 H (hb pk) (n f))
+  | "multisig_lock", m :: f :: pks => match Tools.multisigLock (pks.map hb) (n m) (n f) with
+      | some b => hx b
+      | none => "ERR:ValueError"
+  | "scripthash_lock", [sc, hs] => hx (Tools.scripthashLock H (hb sc) (n hs))
+  | "graftroot_lock", [pk, f] => hx (Tools.graftrootLock (hb pk) (n f))
+  | "taproot_lock", [pk, cm, f] => showR (Tools.taprootLock H C (hb pk) (hb cm) (n f))
+  | "graftap_lock", [pk, f] => showR (Tools.graftapLock H C (hb pk) (n f))
+  | "nonnative_taproot_lock", [pk, cm, f] => showR (Tools.nonnativeTaprootLock H C (hb pk) (hb cm) (n f))
+  | "htlc_sha256_lock", [dg, rc, rf, dl, f] => hx (Tools.htlcLock Tools.SHA256 (hb dg) (hb rc) (hb rf) (z dl) (n f))
+  | "htlc_shake256_lock", [dg, rc, rf, hs, dl, f] => hx (Tools.htlcLock (Tools.SHAKE256 (n hs)) (hb dg) (hb rc) (hb rf) (z dl) (n f))
+  | "htlc2_sha256_lock", [dg, rc, rf, dl, f] => hx (Tools.htlc2Lock H Tools.SHA256 (hb dg) (hb rc) (hb rf) 20 (z dl) (n f))
+  | "htlc2_shake256_lock", [dg, rc, rf, hs, dl, f] => hx (Tools.htlc2Lock H (Tools.SHAKE256 (n hs)) (hb dg) (hb rc) (hb rf) (n hs) (z dl) (n f))
+  | "ptlc_lock", [rc, rf, tw, dl, f] => showR (Tools.ptlcLock C (hb rc) (hb rf) (if tw = "none" then none else some (hb tw)) (z dl) (n f))
+  | "delegate_key_lock", [rt, f] => hx (Tools.delegateKeyLock (hb rt) (n f))
+  | "delegate_key_chain_lock", [rt, f] => hx (Tools.delegateKeyChainLock (hb rt) (n f))
+  | "cert_pack", [dk, b, e, m, sg] => hx (Tools.Certificate.pack ⟨hb dk, n b, n e, m = "1", hb sg⟩)
+  | "cert_unpack", [b] => match Tools.Certificate.unpack (hb b) with
+      | some c => hx c.delegate ++ " " ++ toString c.beginTs ++ " " ++ toString c.endTs ++ " " ++ (if c.may then "1" else "0") ++ " " ++ hx c.signature
+      | none => "ERR:ValueError"
+  | _, _ => "bad-op"
+
+def treeCmd (toks : List String) : String :=
+  match parseTree toks with
+  | some (t, []) =>
+    let H := Ed.hashes
+    let unl := (leafPaths t).map fun p => match Tools.Tree.unlock H t p with
+      | some b => hx b
+      | none => "none"
+    let back := match Tools.Tree.unpack 64 (Tools.Tree.pack t) with
+      | some t' => if t' = t then "same" else "different"
+      | none => "none"
+    "root=" ++ hx (Tools.Tree.root H t) ++ " lock=" ++ hx (Tools.Tree.lockScript H t) ++ " pack=" ++ hx (Tools.Tree.pack t) ++
+      " unpack=" ++ back ++ " unlock=" ++ "|".intercalate unl
+  | _ => "bad-op"
+
 def handle (line : String) : String :=
   match (line.splitOn " ").filter (· ≠ "") with
   | ["I2B", n] => match parseInt? n with
@@ -227,6 +288,8 @@ def handle (line : String) : String :=
   | ["SHAKE256", n, h] => match ofHex h, n.toNat? with
       | some b, some k => let r := toHex (Hash.shake256 b k); if r = "" then "-" else r
       | _, _ => "bad-op"
+  | "TREE" :: toks => treeCmd toks
+  | "BUILD2" :: name :: args => buildCmd name args
   | ["BUILD", "ts_after", ts, v] => match ts.toInt? with
       | some z => hx (Tools.timestampAfterLock z (v = "1"))
       | none => "bad-op"
